@@ -31,11 +31,31 @@ def check(run):
     hists, fines = run_programs(run, "syncmap", seq_programs)
     # group set-up prefixes by the layout they build (projection of the internal state at the end)
     layouts = {}
+    def lkey(last):        # the layout, blind to which values are stored (presence, nil, expunged, shared entry, flags, miss counter)
+        nv = lambda x: 1 if x > 0 else x
+        return json.dumps([[nv(x) for x in last["r"]], [nv(x) for x in last["d"]], last["am"], last["dn"], last["ms"]])
     for s, f in zip(seqs, fines):
         last = f[-1]
-        key = json.dumps([last["r"], last["d"], last["am"], last["dn"], last["ms"]])
+        key = lkey(last)
         if key not in layouts or len(s) < len(layouts[key]):
             layouts[key] = s
+    # ... and closed under one more call, breadth first, so that layouts which need longer histories (an expunged entry next to a
+    # dirty-only one needs four calls) are reached without enumerating every sequence of that length
+    frontier, depth = [s for s in layouts.values() if len(s) == L], L
+    bfs_fines = []
+    while frontier and depth < (7 if q else 9):
+        depth += 1
+        ext = [tuple(s) + (o,) for s in frontier for o in ops]
+        _, fx = run_programs(run, "syncmap", [program(list(s), [], "schedule", fine=1) for s in ext])
+        frontier = []
+        for s, f in zip(ext, fx):
+            last = f[-1]
+            key = lkey(last)
+            if key not in layouts:
+                layouts[key] = s
+                frontier.append(s)
+                bfs_fines.append(f)
+    fines = fines + bfs_fines
     lay = sorted(layouts.values(), key=lambda s: (len(s), s))
     # ---- 3. concurrent: every schedule (DFS over the hook-level steps) of 2 goroutines x 1 call from every layout ----
     pairs = [(a, b) for a in ops for b in ops]
@@ -48,7 +68,7 @@ def check(run):
         conc += [program(list(s), p, "dfs", n=cap, fine=1, preempt=0, epi=1 - (i + run.seed) % 2) for i, (s, p) in enumerate(progs)]
     # one call racing a two-call goroutine (1 x 2): every <= 2-preemption schedule, from a seeded sample of layouts x call triples
     triples = [(a, b, c) for a in ops for b in ops for c in ops]
-    n12 = 300 if q else len(triples) * len(lay)
+    n12 = 220 if q else len(triples) * len(lay)
     if q:
         for i in range(n12):
             a, b, c = run.rng.choice(triples)
@@ -57,6 +77,12 @@ def check(run):
         for s in lay:
             for j, (a, b, c) in enumerate(triples):
                 conc.append(program(list(s), [[a], [b, c]], "dfs", n=cap, fine=0, preempt=2, epi=1))
+    # a brand-new third key arrives while a call on key 1 is in flight (1 x 2): a Store/LoadOrStore of a key the map has never seen
+    # rebuilds the dirty map and expunges cleared entries, after a call that promotes or clears (Range, a miss, a delete of key 1)
+    fresh = [(s, a, b, c) for s in lay for a in ops_over([1])[:-1] for b in (("Range", 1), ("Load", 3), ("Delete", 1), ("LoadAndDelete", 1), ("Load", 1))
+             for c in (("Store", 3), ("LoadOrStore", 3))]
+    for i, (s, a, b, c) in enumerate(fresh if not q else run.rng.sample(fresh, 200)):
+        conc.append(program(list(s), [[a], [b, c]], "dfs", n=cap, fine=0, preempt=2, epi=i % 2, keys=[1, 2, 3]))
     # 3 goroutines x 1 call and 2 goroutines x 2 calls: seeded random schedules (beyond the exhaustive bounds)
     rnd = []
     for i in range(60 if q else 1200):
